@@ -144,6 +144,13 @@ func c16Extra(p *Program, r *Report) {
 				for i, bnd := range mc.Bindings {
 					name := mc.Fn.(*ssa.Function).FreeVars[i].Name()
 					why := foreignStorage(bnd, 0)
+					if why == "" {
+						// the run record of the starter: the goroutine may read what never changes (options, context), but a record cell
+						// written or an interpreter function run on that record there is shared with the caller, which goes on using it
+						if use := recordUsedByGoroutine(m, mc.Fn.(*ssa.Function), i, bnd); use != "" {
+							why = "the run record of the caller, and the goroutine " + use
+						}
+					}
 					n6++
 					r.Check(why == "", "C16.R6", fmt.Sprintf("%s|goroutine captures %s", funcName(fn), name), p.Pos(instrPos(in)), "storage of this call",
 						"the goroutine captures "+name+", which is "+why+": the caller can reuse it before the goroutine has read its arguments")
@@ -269,6 +276,73 @@ func isSpillOf(addr ssa.Value, par *ssa.Parameter) bool {
 }
 
 // foreignStorage: "" when the captured variable holds parameters or memory allocated by this call; otherwise where it came from.
+// recordUsedByGoroutine: free variable i of the goroutine body holds the caller's run record (not one allocated for the
+// goroutine) and the body writes one of its cells, reads a cell an evaluation step changes, or runs an interpreter function
+// on it. "" when the record is not captured or only its options / context are read.
+func recordUsedByGoroutine(m *vmModel, body *ssa.Function, i int, bnd ssa.Value) string {
+	isRec := func(t types.Type) bool {
+		pt, ok := t.(*types.Pointer)
+		return ok && pt.Elem() == types.Type(m.riT)
+	}
+	fv := body.FreeVars[i]
+	var recs []ssa.Value // values of the body that hold the captured record
+	switch {
+	case isRec(bnd.Type()):
+		if _, fresh := bnd.(*ssa.Alloc); fresh {
+			return "" // a record made for the goroutine
+		}
+		recs = append(recs, fv)
+	default:
+		// a variable of the starter captured by reference (the receiver spilled because a closure uses it)
+		pt, ok := bnd.Type().(*types.Pointer)
+		if !ok || !isRec(pt.Elem()) {
+			return ""
+		}
+		al, ok := bnd.(*ssa.Alloc)
+		if !ok {
+			return ""
+		}
+		for _, ref := range *al.Referrers() {
+			if st, ok := ref.(*ssa.Store); ok && st.Addr == ssa.Value(al) {
+				if _, fresh := st.Val.(*ssa.Alloc); fresh {
+					return ""
+				}
+			}
+		}
+		if fv.Referrers() != nil {
+			for _, ref := range *fv.Referrers() {
+				if u, ok := ref.(*ssa.UnOp); ok && u.Op == token.MUL {
+					recs = append(recs, u)
+				}
+			}
+		}
+	}
+	for _, rec := range recs {
+		if rec.Referrers() == nil {
+			continue
+		}
+		for _, ref := range *rec.Referrers() {
+			switch x := ref.(type) {
+			case *ssa.FieldAddr:
+				fname := fieldOfAddr(x).Name()
+				for _, r2 := range *x.Referrers() {
+					if st, ok := r2.(*ssa.Store); ok && st.Addr == ssa.Value(x) {
+						return "stores to its field " + fname
+					}
+				}
+				if c := m.cell[x.Field]; c == "rv" || c == "err" || c == "env" || c == "expr" || c == "stmt" || c == "operator" || c == "defers" {
+					return "reads its " + c + " cell, which the caller keeps changing"
+				}
+			case ssa.CallInstruction:
+				if callee := staticCallee(x); callee != nil && callee.Pkg == m.sp {
+					return "runs " + funcName(callee) + " on it"
+				}
+			}
+		}
+	}
+	return ""
+}
+
 func foreignStorage(v ssa.Value, depth int) string {
 	if depth > 8 {
 		return ""
